@@ -312,7 +312,22 @@ class X86Model(object):
         m_.modifs = {self.env['mmx']: True}
         lg = Obj('log')
         lg.debug = Native(lambda *a: None)
-        return me, {'self': me, 'm': m_, 'read_prefix': list(prefix), 'mm': afs.mm, 'xmm': afs.xmm, 'u32': afs.u32, 'u16': afs.u16, 'x86_afs': afs, 'log': lg, 'reg_cat': 0}
+        scope = {'self': me, 'm': m_, 'read_prefix': list(prefix), 'mm': afs.mm, 'xmm': afs.xmm, 'u32': afs.u32, 'u16': afs.u16, 'x86_afs': afs, 'log': lg, 'reg_cat': 0,
+                 'mmx_prefixes': self.env.get('mmx_prefixes')}
+        # local names that _dis derives from the prefix list before the selection (e.g. the filtered mandatory prefixes)
+        from .srcmodel import walk_no_nested
+        if getattr(self, '_prefix_locals', None) is None:
+            dis = self.arch.method('x86_mn', '_dis')
+            self._prefix_locals = [n for n in walk_no_nested(dis) if isinstance(n, ast.Assign) and len(n.targets) == 1 and isinstance(n.targets[0], ast.Name)
+                                   and n.targets[0].id != 'read_prefix' and any(isinstance(x, ast.Name) and x.id == 'read_prefix' for x in ast.walk(n.value))
+                                   and isinstance(n.value, (ast.ListComp, ast.Name))]
+        ev = Evaluator(scope)
+        for a in self._prefix_locals:
+            try:
+                scope[a.targets[0].id] = ev.ev(a.value, dict(scope))
+            except NotConst:
+                pass
+        return me, scope
 
     def dis_mmx_modes(self, name, prefix, swap, digit=False):
         """(opmode, admode, swap_args) that _dis selects for an MMX/SSE row, 'rejected' when it returns None,
